@@ -345,16 +345,16 @@ TASKS.append(FunctionTask(Contract(qual=_Q + "window", params=["self", "type", "
 TASKS.append(FunctionTask(Contract(qual=_Q + "window", params=["self", "type", "width"], make_inputs=_ts_inputs({"type": StrV("hann"), "width": WW}),
                                    raises={"NotImplementedError": "True"}, ensures=[], modifies=[]),
                           module_env=_TS_ENV, registry=_TS_REG, label=_Q + "window[other]", clauses=["unknown window types are refused"]))
-FLO, FHI, ORD = z3.Real("fc_low"), z3.Real("fc_high"), z3.Int("order")
-for _name, _lo, _hi, _spec in (("lowpass", NONE, FHI, f"FILT(i, order, NOWN, fc_high, {_BT['lowpass']})"), ("highpass", FLO, NONE, f"FILT(i, order, fc_low, NOWN, {_BT['highpass']})"),
-                               ("bandpass", FLO, FHI, f"FILT(i, order, fc_low, fc_high, {_BT['bandpass']})"), ("none", NONE, NONE, None)):
+TFLO, TFHI, ORD = z3.Real("fc_low"), z3.Real("fc_high"), z3.Int("order")
+for _name, _lo, _hi, _spec in (("lowpass", NONE, TFHI, f"FILT(i, order, NOWN, fc_high, {_BT['lowpass']})"), ("highpass", TFLO, NONE, f"FILT(i, order, fc_low, NOWN, {_BT['highpass']})"),
+                               ("bandpass", TFLO, TFHI, f"FILT(i, order, fc_low, fc_high, {_BT['bandpass']})"), ("none", NONE, NONE, None)):
     if _spec is None:
         ens = ["same_storage(self.amplitude)", "forall(i, 0, NT, self.amplitude[i] == old(self.amplitude)[i])", "result is None"]
         mod = []
     else:
         ens = ["len(self.amplitude) == NT", f"forall(i, 0, NT, self.amplitude[i] == {_spec})", "not same_storage(self.amplitude)", "self.dt_in_seconds == old(self.dt_in_seconds)"]
         mod = ["param:self"]
-    TASKS.append(FunctionTask(Contract(qual=_Q + "butterworth_filter", params=["self", "fcs_in_hz", "order"], ghost=dict(_TS_GH, fc_low=FLO, fc_high=FHI),
+    TASKS.append(FunctionTask(Contract(qual=_Q + "butterworth_filter", params=["self", "fcs_in_hz", "order"], ghost=dict(_TS_GH, fc_low=TFLO, fc_high=TFHI),
                                        make_inputs=_ts_inputs({"fcs_in_hz": Tup((_lo, _hi)), "order": ORD}), ensures=ens, modifies=mod,
                                        notes="(None, fh) low-pass at fh, (fl, None) high-pass at fl, (fl, fh) band-pass, (None, None) nothing; zero-phase filtering "
                                              "(sosfiltfilt) of the whole series with the Butterworth design for the series' own sampling rate"),
